@@ -8,7 +8,7 @@ Own flow (a variant of vlib.standard_flow) because part of the model is TRANSLAT
     binary.NativeEndian, PropsGenBO.v cannot hold; PropsGenBORefuted.v (concrete witness) is checked instead and
     the finding is reported with the witness case, run on the real code, as the replay.
 """
-import glob, hashlib, json, os, re, subprocess
+import glob, hashlib, json, os, re, subprocess, threading
 import vlib
 
 PROP = "C33"
@@ -17,8 +17,8 @@ BO_KEY = "byteorder-native"
 
 CFG = dict(
     imports=["From Verif.C33 Require Import Model Spec.", "From VerifGen Require Import Gen."],
-    n=dict(quick=120, thorough=6000),
-    big=dict(quick=3, thorough=60),
+    n=dict(quick=100, thorough=6000),
+    big=dict(quick=2, thorough=60),
     rule="(a) table-size cases: BPFMaglevMaxEndpointsPerService set through Felix's own parameter validation "
          "(boundary values, out-of-range values, random values; thorough tier: every value -2..3005), BPFLUTSizeMaglev() observed; "
          "(b) table cases: prime sizes 2..97, primes 101..997, default-ish sizes, sizes Felix configures (up to 15013), a boundary "
@@ -129,9 +129,16 @@ def run(ctx):
     violations, known_hits = [], []
     kf = dict(vlib.known_findings(PROP))
 
+    # the driver build does not depend on the Coq side: run it alongside
+    built = {}
+    def _build():
+        built["r"] = vlib.go_build(ctx)
+    bt = threading.Thread(target=_build)
+    bt.start()
+
     # 1. hand-written development
     ctx.log("building Coq development")
-    ok, log = vlib.coq_build(vlib.prop_targets("Common") + vlib.prop_targets(PROP))
+    ok, log = vlib.coq_build(["theories/Common/CaseLib.vo"] + vlib.prop_targets(PROP))
     forb = vlib.scan_forbidden([PROP]) + scan_gen_forbidden()
     theorems, axioms = [], set()
     obligations = discharged = 0
@@ -176,6 +183,10 @@ def run(ctx):
             obligations += max(ps["obligations"], 2); discharged += ps["discharged"]; theorems += ps["theorems"]; axioms.update(ps["axioms"])
             if not ps["ok"]:
                 proof_broken = (proof_broken or "") + "\nPropsGenSizes.v (c33_sizes_prime / c33_table_all_prime) does not check against the regenerated Gen.v: " + ps["log"][-2500:]
+            pc = vlib.coq_props(ctx, props_file=os.path.join(GEN_DIR, "PropsGenConfig.v"), extra_q=gq)
+            obligations += max(pc["obligations"], 1); discharged += pc["discharged"]; theorems += pc["theorems"]; axioms.update(pc["axioms"])
+            if not pc["ok"]:
+                proof_broken = (proof_broken or "") + "\nPropsGenConfig.v (c33_configured_tables_ok) does not check against the regenerated Gen.v: " + pc["log"][-2500:]
             pb = vlib.coq_props(ctx, props_file=os.path.join(GEN_DIR, "PropsGenBO.v"), extra_q=gq)
             obligations += 1
             if pb["ok"]:
@@ -202,8 +213,9 @@ def run(ctx):
         return cov
 
     # 3. implementation run
-    ctx.log("building driver from %s" % ctx.repo)
-    exe, blog = vlib.go_build(ctx)
+    ctx.log("waiting for the driver build from %s" % ctx.repo)
+    bt.join()
+    exe, blog = built.get("r", (None, "driver build thread died"))
     if exe is None or not gen_ok:
         what = "driver does not build against the tree" if exe is None else "Gen.v could not be produced/compiled"
         rp = vlib.write_replay(ctx, "driver-build", dict(kind="driver-build-failure", log=(blog or "")[-6000:], proof=proof_broken,
@@ -244,7 +256,7 @@ def run(ctx):
             still = {j for (j, _, o2) in evaluate(sub, "(check_case_same_cpu env)") if not o2}
             for j, (i, a, o) in enumerate(oracle_fail):
                 c = cases[i]
-                key = None if j in still else BO_KEY
+                key = None if j in still else BO_KEY   # passes without the cross-CPU clause: fails only because of the byte order
                 if key and key in kf:
                     if key not in seen:
                         known_hits.append("key=%s %s" % (key, kf[key]))
@@ -303,6 +315,41 @@ def run(ctx):
                         input_distribution=vlib.distribution(lines),
                         byte_order_theorem=("c33_byte_order_refuted (finding)" if bo_refuted else "c33_byte_order_independent")))
     return vlib.finish(ctx, violations, known_hits, "proof", cov, cfg["assumptions"])
+
+
+def replay(ctx, path):
+    """Re-evaluates the case stored in a replay file (inputs + the real code's recorded outputs) through the model and
+    the oracle inside Coq, with Gen.v regenerated from $VERIF_REPO, and re-runs the real code on the same backend names
+    when the driver builds.  Prints what disagrees."""
+    obj = json.load(open(path))
+    case = obj.get("case") or obj.get("first_case")
+    if not case:
+        print(json.dumps(obj, indent=1)[:4000])
+        return 0
+    ok, log = vlib.coq_build(["theories/Common/CaseLib.vo"] + vlib.prop_targets(PROP))
+    gen_text, tinfo = translate(ctx.repo)
+    gd = os.path.join(ctx.build, "gen")
+    os.makedirs(gd, exist_ok=True)
+    for f in glob.glob(os.path.join(gd, "*.vo")):
+        os.remove(f)
+    open(os.path.join(gd, "Gen.v"), "w").write(gen_text)
+    vlib.coqc(os.path.join(gd, "Gen.v"), extra_q=[(gd, "VerifGen")])
+    gq = [(gd, "VerifGen")]
+    print("replay %s: kind=%s class=%s" % (path, obj.get("kind"), obj.get("cls")))
+    print("source byte order now: %s" % tinfo.get("byte_order"))
+    print("sample:", json.dumps(case.get("sample"))[:1500])
+    for name, chk in (("recorded outputs: model agreement / full oracle", "(check_case env)"),
+                      ("recorded outputs: oracle without the cross-CPU clause", "(check_case_same_cpu env)")):
+        failing, _ = vlib.coq_eval_cases(ctx, CFG["imports"], chk, [case["coq"]], extra_q=gq)
+        print("%s -> %s" % (name, "agree=true ok=true" if not failing else "agree=%s ok=%s" % (failing[0][1], failing[0][2])))
+    exe, blog = vlib.go_build(ctx)
+    if exe and case.get("kind") == "lut":
+        lines = vlib.run_driver(ctx, exe, ["-n", 0, "-seed", 1, "-bo", tinfo["bo"]])
+        cur = [l for l in lines if "corpus" in l.get("tags", [])]
+        if cur and "corpus" in case.get("tags", []):
+            failing, _ = vlib.coq_eval_cases(ctx, CFG["imports"], "(check_case env)", [cur[0]["coq"]], extra_q=gq)
+            print("same input on the current tree -> %s" % ("agree=true ok=true" if not failing else "agree=%s ok=%s" % (failing[0][1], failing[0][2])))
+    return 0
 
 
 MANIFEST = dict(
